@@ -1,0 +1,20 @@
+// Copyright 2026 Juan Pablo Tosso and the OWASP Coraza contributors
+// SPDX-License-Identifier: Apache-2.0
+
+//go:build verif
+
+// Package verif holds verification-only fault-injection points (build tag "verif").
+package verif
+
+// FaultHook, when set by a conformance harness, is consulted before every file-system
+// operation the library performs for body spill-over, upload storage and their clean-up.
+// Returning an error makes that operation fail with it.
+var FaultHook func(point string) error
+
+// Fault returns the error to inject at the named point, or nil.
+func Fault(point string) error {
+	if FaultHook != nil {
+		return FaultHook(point)
+	}
+	return nil
+}
